@@ -6,7 +6,9 @@ package engines
 import (
 	"context"
 	"fmt"
+	"runtime"
 	"sort"
+	"strconv"
 	"strings"
 	"sync"
 	"sync/atomic"
@@ -950,6 +952,183 @@ func e1LongLifeCase(seed uint64, n int) Case {
 	}}
 }
 
+// e1ConcurrentReadersCase: ONE writer applies a sequence of operations whose
+// reference states S0, S1, ... are known (single writer, fresh versions), while
+// several goroutines call List() and Get() flat out (real time, no bubble).
+// A read that began after operation i had returned and ended before operation j
+// was started must return one of S_i .. S_j-1 ... S_j (the content after a
+// prefix of the sequence that is compatible with real-time order); the writer's
+// own read right after its own operation must return exactly S_i.  What List/Get
+// return is prescribed by the sequence applied so far for EVERY caller, however
+// many of them ask at once.
+func e1ConcurrentReadersCase(seed uint64, n int) Case {
+	id := fmt.Sprintf("E1/concurrent-readers/%d/%d", seed, n)
+	return Case{ID: id, Desc: map[string]interface{}{"seed": seed, "n": n, "what": "List/Get from several goroutines at once against a single writer's reference states (real time)"}, Bubble: false, Run: func(r *Res) {
+		rng := kit.NewRng(kit.Mix(seed, uint64(n)+1990))
+		old := runtime.GOMAXPROCS([]int{4, 8, 16}[rng.Intn(3)])
+		defer runtime.GOMAXPROCS(old)
+		F := kit.TFN("l!=z", func(o metav1.Object) bool { return o.GetLabels()["l"] != "z" })
+		ctx, cancel := context.WithCancel(context.Background())
+		c := kcache.VerifNewCache(ctx, kit.NullLog{}, nil, F.Build())
+		defer func() { cancel(); <-c.Done() }()
+		const nops = 1500
+		names := []string{"k0", "k1", "k2", "k3", "k4", "k5"}
+		states := make([]kit.Snap, 1, nops+1) // states[i] = content after i operations
+		states[0] = kit.Snap{}
+		var smu sync.RWMutex
+		var started, completed atomic.Int64
+		var stop atomic.Bool
+		var bmu sync.Mutex
+		var bads []string
+		var nreads atomic.Int64
+		var wg sync.WaitGroup
+		readers := 3 + rng.Intn(6)
+		for k := 0; k < readers; k++ {
+			wg.Add(1)
+			kk := k
+			go func() {
+				defer wg.Done()
+				for i := 0; !stop.Load(); i++ {
+					lo := completed.Load()
+					var got kit.Snap
+					var key string
+					isGet := (i+kk)%3 == 0
+					if isGet {
+						key = names[(i+kk)%len(names)]
+						o, err := c.Get("ns", key)
+						if err != nil {
+							return
+						}
+						got = kit.Snap{}
+						if o != nil {
+							got["ns/"+key] = o.GetResourceVersion()
+						}
+					} else {
+						l, err := c.List()
+						if err != nil {
+							return
+						}
+						got = kit.SnapOf(l)
+					}
+					hi := started.Load()
+					nreads.Add(1)
+					ok := false
+					smu.RLock()
+					if int(hi) >= len(states) {
+						hi = int64(len(states) - 1)
+					}
+					for j := lo; j <= hi && !ok; j++ {
+						st := states[j]
+						if isGet {
+							v, has := st["ns/"+key]
+							gv, ghas := got["ns/"+key]
+							ok = has == ghas && v == gv
+						} else {
+							ok = st.Equal(got)
+						}
+					}
+					smu.RUnlock()
+					if !ok {
+						bmu.Lock()
+						if len(bads) < 3 {
+							what := "List()"
+							if isGet {
+								what = "Get(" + key + ")"
+							}
+							bads = append(bads, fmt.Sprintf("reader %d: %s began after operation #%d had returned and ended before operation #%d was started, and returned %v: the content after none of these prefixes", kk, what, lo, hi+1, got))
+						}
+						bmu.Unlock()
+					}
+				}
+			}()
+		}
+		cur := kit.Snap{}
+		ver := 0
+		for i := 1; i <= nops && !r.Failed(); i++ {
+			next := cur.Clone()
+			var err error
+			// the state after the operation is published BEFORE it is started (a reader
+			// may already see it while the call is in progress)
+			switch x := rng.Intn(10); {
+			case x < 6:
+				ver++
+				nm := names[rng.Intn(len(names))]
+				lab := []string{"x", "y", "z"}[rng.Intn(3)]
+				o := kit.Pod("ns", nm, strconv.Itoa(ver), map[string]string{"l": lab})
+				if lab == "z" {
+					delete(next, "ns/"+nm)
+				} else {
+					next["ns/"+nm] = strconv.Itoa(ver)
+				}
+				smu.Lock()
+				states = append(states, next)
+				smu.Unlock()
+				started.Store(int64(i))
+				typ := kcache.EventTypeUpdate
+				if _, has := cur["ns/"+nm]; !has {
+					typ = kcache.EventTypeCreate
+				}
+				_, err = c.Update(kcache.NewEvent(typ, o))
+			case x < 8:
+				ver++
+				nm := names[rng.Intn(len(names))]
+				delete(next, "ns/"+nm)
+				smu.Lock()
+				states = append(states, next)
+				smu.Unlock()
+				started.Store(int64(i))
+				_, err = c.Update(kcache.NewEvent(kcache.EventTypeDelete, kit.Pod("ns", nm, strconv.Itoa(ver), nil)))
+			default:
+				var l []metav1.Object
+				next = kit.Snap{}
+				for _, nm := range names {
+					if rng.Chance(60) {
+						ver++
+						lab := []string{"x", "y", "z"}[rng.Intn(3)]
+						l = append(l, kit.Pod("ns", nm, strconv.Itoa(ver), map[string]string{"l": lab}))
+						if lab != "z" {
+							next["ns/"+nm] = strconv.Itoa(ver)
+						}
+					}
+				}
+				smu.Lock()
+				states = append(states, next)
+				smu.Unlock()
+				started.Store(int64(i))
+				_, err = c.Sync(l)
+			}
+			if err != nil {
+				r.V("C01", "op-error", "%v", err)
+				break
+			}
+			completed.Store(int64(i))
+			cur = next
+			// the writer's own read: exactly the content after its i operations
+			if i%2 == 0 {
+				l, lerr := c.List()
+				if lerr != nil {
+					r.V("C01", "list-error", "%v", lerr)
+					break
+				}
+				r.Add("writer-reads-after-own-write", 1)
+				if got := kit.SnapOf(l); !got.Equal(cur) {
+					r.V("C01", "content-mismatch", "with %d other goroutines reading, the writer's List() right after its operation #%d returned %v; the sequence applied so far prescribes %v (a reply computed before the operation, i.e. for someone else's earlier request)", readers, i, got, cur)
+					break
+				}
+			}
+		}
+		stop.Store(true)
+		wg.Wait()
+		for _, b := range bads {
+			r.V("C01", "content-mismatch", "%s", b)
+		}
+		r.Add("concurrent-reads", nreads.Load())
+		r.Add("concurrent-reader-cases", 1)
+		r.Key(id)
+		r.Sample = map[string]interface{}{"readers": readers, "operations": nops, "reads": nreads.Load()}
+	}}
+}
+
 func init() {
 	register("E1", func(tier string, seed uint64) []Case {
 		var cases []Case
@@ -976,6 +1155,9 @@ func init() {
 		}
 		for i := 0; i < tierPick(tier, 2, 16); i++ {
 			cases = append(cases, e1LongLifeCase(seed, i))
+		}
+		for i := 0; i < tierPick(tier, 12, 400); i++ {
+			cases = append(cases, e1ConcurrentReadersCase(seed, i))
 		}
 		return cases
 	})
